@@ -2613,6 +2613,12 @@ def fixup_pool_strides(op: Operation, arch, nng):
         kernel_w, kernel_h = op.get_kernel_size()
         stride_w, stride_h = op.get_kernel_stride()
         if kernel_w == stride_w == ifm.shape[2] and kernel_h == stride_h == ifm.shape[1]:
+            # This runs before the supported operator check. Remember the original attributes so that they can be
+            # restored if the operator ends up on the CPU, where it must be passed through unchanged.
+            op.attrs.setdefault(
+                "original_pool_attrs",
+                {key: op.attrs[key] for key in ("strides", "stride_w", "stride_h", "padding") if key in op.attrs},
+            )
             if "strides" in op.attrs:
                 stride_n, _, _, stride_c = op.attrs["strides"]
                 op.attrs["strides"] = (stride_n, 1, 1, stride_c)
@@ -2995,6 +3001,9 @@ def merge_dequant_lut_quant(op, arch, nng=None):
 
 def supported_operator_check(op, arch, nng):
     op.run_on_npu = arch.tflite_supported_operators.is_operator_supported(op)
+    if not op.run_on_npu and "original_pool_attrs" in op.attrs:
+        # undo fixup_pool_strides: operators that run on the CPU are written back as they were read
+        op.attrs.update(op.attrs.pop("original_pool_attrs"))
     return op
 
 
